@@ -50,14 +50,22 @@ def build_tree(path: str, options: Optional[graphtage.BuildOptions] = None, *arg
 
     """
     csv_data = []
+    if options is None:
+        list_options = {}
+    else:
+        # rows, and the cells of a row, are lists: the options about list edits apply to them as to any other list
+        list_options = {
+            'allow_list_edits': options.allow_list_edits,
+            'allow_list_edits_when_same_length': options.allow_list_edits_when_same_length
+        }
     with open(path) as f:
         for row in csv.reader(f, *args, **kwargs):
             rowdata = [json.build_tree(i, options=options) for i in row]
             for col in rowdata:
                 if isinstance(col, graphtage.StringNode):
                     col.quoted = False
-            csv_data.append(CSVRow(rowdata))
-    return CSVNode(csv_data)
+            csv_data.append(CSVRow(rowdata, **list_options))
+    return CSVNode(csv_data, **list_options)
 
 
 class CSVRowFormatter(SequenceFormatter):
